@@ -163,6 +163,10 @@ CORPUS = [
     # an aliased, computed group key is declared once, in front of the aggregation
     "from a\ngroup {d = u + 1} (aggregate {n = count this, total = sum id} | derive {avg = total / n})\nsort d\n",
     "from a\ngroup {d = u + 1} (sort id | take 2 | derive {r = row_number this})\n",
+    # a joined sub-pipeline that uses a column of its input by name, and the outer pipeline refers to the same column of the joined side (round-6 seed C16-10)
+    "from a\njoin side:inner m = (from a | filter id > 1 | derive band = u / 100) (a.u == m.id)\nselect {a.id, mgr = m.id, m.band}\nsort {a.id}\n",
+    # a constant with one node id used as a whole column inside a let-table and as an operand in the main pipeline (round-6 seed C16-11)
+    "let threshold = 100\nlet big = (from a | derive {t = threshold} | filter u > t)\nfrom big\nfilter u > threshold * 2\n",
 ]
 
 
